@@ -47,6 +47,9 @@ AXIS_VALUES = [
     ([0.0, 0.9, -2.2], [0.7, 0.0, -1.4]),
 ]
 AXIS3 = [[0.8, -1.2, 0.0], [0.0, 1.9, -0.6], [1.1, 0.0, -0.4], [-0.5, 0.7, 0.0]]
+AXIS4 = [[0.8, -1.2, 0.0, 1.7], [0.0, 1.9, -0.6, -1.4], [1.1, 0.0, -0.4, 2.2], [-0.5, 0.7, 0.0, -1.9]]
+# frozen values of the restrictions, by input index: pairwise distinct and distinct from every point coordinate
+FROZEN_VALUES = [[0.35, -1.65, 2.45, -0.85], [1.25, -0.45, -2.35, 0.65], [-1.05, 2.75, 0.15, -2.55], [2.05, 0.95, -1.75, -0.25]]
 CONSTS = [
     {"num": 2.5, "off": -0.75, "arr2": [2.0, -0.5], "arr3": [1.0, 2.0, 3.0]},
     {"num": -1.5, "off": 0.5, "arr2": [-0.25, 3.0], "arr3": [0.5, -2.0, 4.0]},
@@ -70,7 +73,10 @@ def configure(seed: int) -> None:
     nz2 = [array([a, b]) for a in nz[0] for b in nz[1]]
     b3 = [v for v in a3 if v != 0.0]
     nz3 = [array([b3[0], b3[1], -b3[0]]), array([b3[1], -b3[1], b3[0]]), array([-b3[0], b3[0], b3[1]]), array([b3[1], b3[0], b3[1]])]
-    CFG.update(seed=seed, grid=grid, diag=diag, pts3=pts3, nz2=nz2, nz3=nz3, consts=CONSTS[seed % len(CONSTS)])
+    a4 = AXIS4[seed % len(AXIS4)]
+    pts4 = [array([a4[(i + j) % 4] for j in range(4)]) for i in range(4)]
+    CFG.update(seed=seed, grid=grid, diag=diag, pts3=pts3, pts4=pts4, nz2=nz2, nz3=nz3, consts=CONSTS[seed % len(CONSTS)],
+               frozen=FROZEN_VALUES[seed % len(FROZEN_VALUES)])
 
 
 # ---------------------------------------------------------------------------------------------------
@@ -264,24 +270,63 @@ LINEAR = {  # name: (A, b, sparse)
 }
 LINEAR3 = {"l23": ([[1.0, -2.0, 0.5], [0.0, 3.0, -1.0]], [4.0, -5.0], False), "l13": ([[0.5, 0.0, -1.5]], [6.0], False)}
 QUAD = {"quad": ([[1.0, 2.0], [0.5, -1.0]], [0.5, 1.0], 12.0)}
-QUAD3 = {}
+USER_LEAVES4 = {  # n = 4, none symmetric in its inputs: ordered selections of frozen inputs (FunctionRestriction)
+    "u4": (
+        lambda x: [x[0] + 2.0 * x[1] ** 2 + 3.0 * x[2] * x[3] - x[3] ** 3 + 20.0],
+        lambda x: [[1.0, 4.0 * x[1], 3.0 * x[3], 3.0 * x[2] - 3.0 * x[3] ** 2]],
+        "float",
+        "1d",
+    ),
+    "u24": (
+        lambda x: [x[0] * x[1] + 5.0 * x[2] - x[3] ** 2 + 15.0, x[0] - 2.0 * x[1] + x[2] * x[3] + 12.0],
+        lambda x: [[x[1], x[0], 5.0, -2.0 * x[3]], [1.0, -2.0, x[3], x[2]]],
+        "array",
+        "2d",
+    ),
+    "u34": (
+        lambda x: [x[0] ** 2 + x[3] + 9.0, x[1] * x[2] + 2.0 * x[3] + 11.0, x[0] * x[3] - x[1] + 3.0 * x[2] + 14.0],
+        lambda x: [[2.0 * x[0], 0.0, 0.0, 1.0], [0.0, x[2], x[1], 2.0], [x[3], -1.0, 3.0, x[0]]],
+        "array",
+        "2d",
+    ),
+}
+LINEAR4 = {"l24": ([[1.0, -2.0, 0.5, 3.0], [0.0, 3.0, -1.0, 0.25]], [4.0, -5.0], False),
+           "ls24": ([[0.0, 1.5, -2.0, 0.0], [2.5, 0.0, 0.0, -1.0]], [6.0, 7.0], True)}
+ALL_USER = {**USER_LEAVES, **USER_LEAVES3, **USER_LEAVES4}
+ALL_LIN = {**LINEAR, **LINEAR3, **LINEAR4}
 
 FUNC_LEAVES = ["s0", "s", "v22", "w22", "v32", "lin1", "lin2", "lin3", "lins", "quad"]
 CORE_LEAVES = ["s0", "v22", "v32", "lin2"]  # one per shape class, for the depth-3 tier
 LEAVES3 = ["t3", "t33", "t23", "l23", "l13"]
+LEAVES4 = ["u4", "u24", "u34", "l24", "ls24"]
 LEAF_DIM = {"s0": 1, "s": 1, "v22": 2, "w22": 2, "v32": 3, "lin1": 1, "lin2": 2, "lin3": 3, "lins": 2, "quad": 1,
-            "t3": 1, "t33": 3, "t23": 2, "l23": 2, "l13": 1}
-LEAF_NIN = {**dict.fromkeys(FUNC_LEAVES, 2), **dict.fromkeys(LEAVES3, 3)}
+            "t3": 1, "t33": 3, "t23": 2, "l23": 2, "l13": 1, "u4": 1, "u24": 2, "u34": 3, "l24": 2, "ls24": 2}
+LEAF_NIN = {**dict.fromkeys(FUNC_LEAVES, 2), **dict.fromkeys(LEAVES3, 3), **dict.fromkeys(LEAVES4, 4)}
+CUR: dict = {}  # name -> defining data currently in force for a leaf edited through its public setters (history cases)
+
+
+def data_of(name):
+    """The defining data of a leaf: the edited ones (history cases) or those of the tables."""
+    if name in CUR:
+        return CUR[name]
+    if name in ALL_USER:
+        comp, jacf, _, _ = ALL_USER[name]
+        return {"kind": "user", "comp": comp, "jac": jacf}
+    if name in ALL_LIN:
+        a, b, sparse = ALL_LIN[name]
+        return {"kind": "lin", "a": array(a, dtype=float), "b": array(b, dtype=float), "sparse": sparse}
+    q, lc, c = QUAD[name]
+    return {"kind": "quad", "q": array(q, dtype=float), "lc": array(lc, dtype=float), "c": float(c)}
 
 
 def leaf_class(name):
     n, m = LEAF_NIN[name], LEAF_DIM[name]
-    if name in LINEAR or name in LINEAR3:
-        base = "sparse-linear" if (LINEAR.get(name) or LINEAR3.get(name))[2] else "linear"
+    if name in ALL_LIN:
+        base = "sparse-linear" if ALL_LIN[name][2] else "linear"
         return f"{base}({'scalar' if m == 1 else 'm=n' if m == n else 'm!=n'})"
     if name in QUAD:
         return "quadratic"
-    spec = USER_LEAVES.get(name) or USER_LEAVES3.get(name)
+    spec = ALL_USER[name]
     if m == 1:
         return "scalar" if spec[3] == "1d" else "scalar(1,n)-jac"
     return "vector m=n" if m == n else "vector m!=n"
@@ -293,7 +338,8 @@ class Env:
     def __init__(self, f_type=""):
         self.objs = {}
         self.handed = []  # (array object, pristine copy, leaf name, what)
-        self.native = {}  # name -> snapshot of a gemseo-native leaf
+        self.native = {}  # name -> gemseo-native leaf (linear, quadratic)
+        self.data = {}  # name -> defining data the native leaf must currently have
         self.f_type = f_type
 
     def get(self, name):
@@ -306,7 +352,7 @@ class Env:
         from gemseo.core.mdo_functions.mdo_linear_function import MDOLinearFunction
         from gemseo.core.mdo_functions.mdo_quadratic_function import MDOQuadraticFunction
 
-        spec = USER_LEAVES.get(name) or USER_LEAVES3.get(name)
+        spec = ALL_USER.get(name)
         if spec is not None:
             comp, jacf, returns, layout = spec
             memo_v, memo_j = {}, {}
@@ -334,7 +380,8 @@ class Env:
 
             return MDOFunction(func, name, jac=jac, dim=LEAF_DIM[name], f_type=self.f_type,
                                input_names=[f"x{i}" for i in range(LEAF_NIN[name])])
-        lin = LINEAR.get(name) or LINEAR3.get(name)
+        lin = ALL_LIN.get(name)
+        self.data[name] = data_of(name)
         if lin is not None:
             a, b, sparse = lin
             a = array(a, dtype=float)
@@ -356,31 +403,29 @@ class Env:
             if arr.shape != pristine.shape or arr.tobytes() != pristine.tobytes():
                 return name, what, pristine, arr
         for name, f in self.native.items():
-            if name in QUAD:
-                ok = np.array_equal(f.quad_coeffs, array(QUAD[name][0])) and np.array_equal(f.linear_coeffs.ravel(), array(QUAD[name][1]))
+            d = self.data[name]
+            if d["kind"] == "quad":
+                ok = np.array_equal(f.quad_coeffs, d["q"]) and np.array_equal(f.linear_coeffs.ravel(), d["lc"])
             else:
-                a, b, _ = LINEAR.get(name) or LINEAR3.get(name)
                 co = f.coefficients
                 co = co.toarray() if hasattr(co, "toarray") else co
-                ok = np.array_equal(co, array(a)) and np.array_equal(f.value_at_zero, array(b))
+                ok = np.array_equal(co, d["a"]) and np.array_equal(f.value_at_zero, d["b"])
             if not ok:
                 return name, "coefficients", None, None
         return None
 
 
 def leaf_dual(name, x):
-    spec = USER_LEAVES.get(name) or USER_LEAVES3.get(name)
-    if spec is not None:
-        # the operands are *given*: same callables as handed to gemseo, hence no rounding difference
-        return D(spec[0](x), array(spec[1](x), dtype=float))
-    lin = LINEAR.get(name) or LINEAR3.get(name)
+    d = data_of(name)
     n = x.size
-    if lin is not None:
-        a, b = array(lin[0]), array(lin[1])
+    if d["kind"] == "user":
+        # the operands are *given*: same callables as handed to gemseo, hence no rounding difference
+        return D(d["comp"](x), array(d["jac"](x), dtype=float))
+    if d["kind"] == "lin":
+        a, b = d["a"], d["b"]
         v = array([sum(a[i, j] * x[j] for j in range(n)) + b[i] for i in range(len(b))])
         return D(v, a, (n + 1) * 2 * U * (abs(a) @ abs(x) + abs(b)), np.zeros_like(a))
-    q, lc, c = QUAD[name]
-    q, lc = array(q), array(lc)
+    q, lc, c = d["q"], d["lc"], d["c"]
     v = sum(q[i, j] * x[i] * x[j] for i in range(n) for j in range(n)) + sum(lc[j] * x[j] for j in range(n)) + c
     g = (q + q.T) @ x + lc
     ev = (n * n + n + 2) * 2 * U * (abs(x) @ abs(q) @ abs(x) + abs(lc) @ abs(x) + abs(c))
@@ -690,7 +735,8 @@ def report(tally, case, sig_tail, vd, key, nontrivial, what, bad_key=None):
 
 def has_sparse_operand(case):
     trees = [case[k] for k in ("tree", "base") if k in case] + list(case.get("bases", []))
-    return any((LINEAR.get(n) or LINEAR3.get(n) or (0, 0, False))[2] for t in trees for n in t_leaves(t))
+    names = [n for t in trees for n in t_leaves(t)] + ([case["target"]] if "target" in case else [])
+    return any(ALL_LIN.get(n, (0, 0, False))[2] for n in names)
 
 
 def guarded_build(build, vd):
@@ -745,6 +791,14 @@ def base_dual(base, x):
     return t_dual(base, x, {})
 
 
+def points_for(n):
+    return {2: CFG["grid"], 3: CFG["pts3"], 4: CFG["pts4"]}[n]
+
+
+def order_class(frozen):
+    return "increasing" if list(frozen) == sorted(frozen) else "not-increasing"
+
+
 def base_cls(b):
     return t_class(b, LEAF_NIN[t_leaves(b)[0]])
 
@@ -754,8 +808,10 @@ def h_restriction(case, env, vd):
 
     b, frozen = case["base"], case["frozen"]
     n = LEAF_NIN[t_leaves(b)[0]]
-    allpts = CFG["grid"] if n == 2 else CFG["pts3"]
-    fvals = [float(allpts[1][i]) for i in frozen]
+    allpts = points_for(n)
+    # ``frozen`` is an ORDERED selection (not necessarily increasing); the frozen values are pairwise distinct, so that
+    # pairing a value with the wrong index is visible; the oracle completes the full vector index by index
+    fvals = [CFG["frozen"][i] for i in frozen]
     active = [i for i in range(n) if i not in frozen]
     f = guarded_build(lambda: t_build(b, env), vd)
     fn = None
@@ -774,7 +830,7 @@ def h_restriction(case, env, vd):
         q = p[active]
         if not any(np.array_equal(q, r) for r in pts):
             pts.append(q)
-    sig = {"op": "FunctionRestriction", "operands": f"{base_cls(b)};frozen={len(frozen)}of{n}"}
+    sig = {"op": "FunctionRestriction", "operands": f"{base_cls(b)};frozen={len(frozen)}of{n};order={order_class(frozen)}"}
     return fn, oracle, pts, sig, f"FunctionRestriction({t_key(b)}, frozen={frozen}={fvals})"
 
 
@@ -850,7 +906,7 @@ def h_normalize(case, env, vd):
         # normalized components, x = u elsewhere  (DesignSpace.unnormalize_vect)
         x = shift + span * u
         r = leaf_dual(name, x)
-        a = abs(array((LINEAR.get(name) or LINEAR3.get(name))[0]))
+        a = abs(data_of(name)["a"])
         return D(r.v, r.d * span[None, :], r.ev + 4 * U * (a @ (abs(shift) + abs(span * u))), U * abs(r.d * span[None, :]))
 
     upts = [array(z) for z in ([[0.0, 1.0], [0.25, 0.5], [1.0, 0.0]] if n == 2 else [[0.0, 1.0, 0.5], [0.25, 0.5, 1.0], [1.0, 0.0, 0.0]])]
@@ -861,8 +917,8 @@ def h_normalize(case, env, vd):
 def h_linrestrict(case, env, vd):
     name, frozen = case["base"][1], case["frozen"]
     n = LEAF_NIN[name]
-    allpts = CFG["grid"] if n == 2 else CFG["pts3"]
-    fvals = [float(allpts[2][i]) for i in frozen]
+    allpts = points_for(n)
+    fvals = [CFG["frozen"][i] for i in frozen]
     active = [i for i in range(n) if i not in frozen]
     f = env.get(name)
     fn = guarded_build(lambda: f.restrict(array(frozen, dtype=int), array(fvals, dtype=float)), vd)
@@ -879,13 +935,12 @@ def h_linrestrict(case, env, vd):
         q = p[active]
         if not any(np.array_equal(q, r) for r in pts):
             pts.append(q)
-    sig = {"op": "MDOLinearFunction.restrict", "operands": f"{leaf_class(name)};frozen={len(frozen)}of{n}"}
+    sig = {"op": "MDOLinearFunction.restrict", "operands": f"{leaf_class(name)};frozen={len(frozen)}of{n};order={order_class(frozen)}"}
     return fn, oracle, pts, sig, f"{name}.restrict({frozen}, {fvals})"
 
 
 def _x0s(n):
-    pts = CFG["grid"] if n == 2 else CFG["pts3"]
-    return pts
+    return points_for(n)
 
 
 def h_taylor1(case, env, vd):
@@ -1085,7 +1140,7 @@ def ks_bounds(fn, method, gname, idx, scale, pts, vd):
     """lower_bound_KS <= max(scale * g[idx]) <= upper_bound_KS, from fresh (unmemoized) operand values."""
     if method not in ("lower_bound_KS", "upper_bound_KS") or vd.bad:
         return
-    comp = (USER_LEAVES.get(gname) or USER_LEAVES3.get(gname))[0]
+    comp = ALL_USER[gname][0]
     for x in pts:
         g = array(comp(x), dtype=float)
         sel = g if idx is None else g[idx]
@@ -1198,6 +1253,232 @@ def h_discipline(case, env, vd):
     return None if vd.bad else _Done, oracles, gpts, sig, what
 
 
+# --- histories on function objects: public setters of the defining data ------------------------------
+ANCHORED_MODULES = ["mdo_function", "mdo_linear_function", "mdo_quadratic_function", "function_restriction",
+                    "linear_composite_function", "concatenate", "convex_linear_approx", "taylor_polynomials"]
+# setters of the data that define the value / Jacobian, per class ("func" and "jac" are edited together: a user who
+# replaces the wrapped function replaces its Jacobian; replacing only one of them breaks the property by construction)
+SETTERS = {
+    "MDOFunction": ["func", "jac"],
+    "MDOLinearFunction": ["coefficients", "value_at_zero"],
+    "MDOQuadraticFunction": ["quad_coeffs", "linear_coeffs"],
+}
+IGNORED_SETTERS = {("MDOFunction", "input_names"), ("MDOFunction", "output_names"), ("MDOFunction", "expects_normalized_inputs")}
+ALT_USER = {  # replacement (components, Jacobian rows) of a user function
+    "s0": (lambda x: [x[0] ** 2 - 3.0 * x[1] + 8.0], lambda x: [[2 * x[0], -3.0]]),
+    "v22": (lambda x: [x[1] ** 2 + x[0] + 5.0, 2.0 * x[0] * x[1] + 9.0], lambda x: [[1.0, 2 * x[1]], [2 * x[1], 2 * x[0]]]),
+}
+
+
+def discover_setters():
+    """Public property setters defined by the MDOFunction classes of the anchored modules."""
+    import importlib
+    import inspect
+
+    from gemseo.core.mdo_functions.mdo_function import MDOFunction
+
+    found = set()
+    for mod in ANCHORED_MODULES:
+        module = importlib.import_module(f"gemseo.core.mdo_functions.{mod}")
+        for _, cls in inspect.getmembers(module, inspect.isclass):
+            if cls.__module__ != module.__name__ or not issubclass(cls, MDOFunction):
+                continue
+            for attr, value in vars(cls).items():
+                if isinstance(value, property) and value.fset is not None and not attr.startswith("_"):
+                    found.add((cls.__name__, attr))
+    return found
+
+
+def new_matrix(m, n, k, with_zero=False):
+    a = array([[(-1.0) ** (i + j + k) * (0.5 + i + 0.25 * j + 1.5 * k) for j in range(n)] for i in range(m)])
+    if with_zero:
+        a[0, (k + 1) % n] = 0.0
+    return a
+
+
+def new_vector(m, k):
+    return array([(-1.0) ** (i + k) * (3.5 + i + 2.0 * k) for i in range(m)])
+
+
+def apply_edit(f, data, target, setter, k):
+    """Apply one public setter to the gemseo object and return the defining data it must now have."""
+    data = dict(data)
+    m = LEAF_DIM[target]
+    if setter == "quad_coeffs":
+        data["q"] = new_matrix(2, 2, k) + array([[0.0, 1.0], [0.0, 0.0]])  # not symmetric
+        f.quad_coeffs = data["q"].copy()
+    elif setter == "linear_coeffs":
+        data["lc"] = new_vector(2, k)
+        f.linear_coeffs = data["lc"].copy()
+    elif setter == "coefficients":
+        data["a"] = new_matrix(m, 2, k, with_zero=data["sparse"])
+        if data["sparse"]:
+            from scipy.sparse import csr_array
+
+            f.coefficients = csr_array(data["a"])
+        else:
+            f.coefficients = data["a"].copy()
+    elif setter == "value_at_zero":
+        if k == 2:  # a number: broadcast to the output dimension
+            data["b"] = np.full(m, 1.75)
+            f.value_at_zero = 1.75
+        else:
+            data["b"] = new_vector(m, k)
+            f.value_at_zero = data["b"].copy()
+    elif setter == "func+jac":
+        comp, jacf = ALT_USER[target]
+        returns, layout = ALL_USER[target][2:]
+        data = {"kind": "user", "comp": comp, "jac": jacf}
+        f.func = (lambda x: float(comp(x)[0])) if returns == "float" else (lambda x: array(comp(x), dtype=float))
+        f.jac = (lambda x: array(jacf(x), dtype=float)[0]) if layout == "1d" else (lambda x: array(jacf(x), dtype=float))
+    else:
+        raise ValueError(setter)
+    return data
+
+
+def with_data(data, oracle):
+    """Evaluate an oracle with the defining data ``data`` in force for the edited leaf."""
+
+    def wrapped(x):
+        saved = dict(CUR)
+        CUR.clear()
+        CUR.update(data)
+        try:
+            return oracle(x)
+        finally:
+            CUR.clear()
+            CUR.update(saved)
+
+    return wrapped
+
+
+def history_kinds(target):
+    """Composites of the edited function: label -> sub-case (a tree or a helper case)."""
+    t = ["leaf", target]
+    m = LEAF_DIM[target]
+    partner = {"s0": "s", "v22": "w22"}.get(target) or {1: "s0", 2: "v22", 3: "v32"}[m]
+    g = ["leaf", partner]
+    c = CFG["consts"]
+    arr = ["arr", c[f"arr{m}"] if m > 1 else [c["arr2"][1]]]
+    kinds = {
+        "-f": {"tree": ["neg", t]},
+        "f*number": {"tree": ["*", t, ["num", c["num"]]]},
+        "f/array": {"tree": ["/", t, arr]},
+        "f.offset": {"tree": ["offset", t, ["num", c["off"]]]},
+        "f*g": {"tree": ["*", t, g]},
+        "g*f": {"tree": ["*", g, t]},
+        "f-g": {"tree": ["-", t, g]},
+        "g+f": {"tree": ["+", g, t]},
+        "f/g": {"tree": ["/", t, g]},
+        "g/f": {"tree": ["/", g, t]},
+        "f*f": {"tree": ["*", t, t]},
+        "FunctionRestriction": {"helper": "restriction", "base": t, "frozen": [1]},
+        "LinearCompositeFunction": {"helper": "lincomp", "base": t, "matrix": "A23"},
+        "Concatenate": {"helper": "concat", "bases": [g, t]},
+        "compute_linear_approximation": {"helper": "taylor1", "base": t, "x0": 4},
+    }
+    if target in ("s0", "quad"):
+        kinds["compute_quadratic_approximation"] = {"helper": "taylor2", "base": t, "x0": 4, "hessian": "sym"}
+    if target in LINEAR:
+        kinds["MDOLinearFunction.restrict"] = {"helper": "linrestrict", "base": t, "frozen": [0]}
+        kinds["MDOLinearFunction.normalize"] = {"helper": "normalize", "base": t, "space": "bounded", "split": False}
+    return kinds
+
+
+def build_sub(sub, env, vd):
+    if "tree" in sub:
+        tree = sub["tree"]
+        fn = guarded_build(lambda: t_build(tree, env), vd)
+        return fn, (lambda x: t_dual(tree, x, {})), CFG["grid"]
+    fn, oracle, pts, _, _ = HELPERS[sub["helper"]](sub, env, vd)
+    return fn, oracle, pts
+
+
+def h_history(case, env, vd):
+    """construct -> [evaluate/differentiate] -> [build a composite] -> public setter(s) -> [build the composite] -> compare.
+
+    The edited function and every composite built after the edit must follow the NEW data.  A composite built before the
+    edit either follows the new data (it refers to its operand) or keeps the data it was built with (it copied them: Taylor
+    polynomials, MDOLinearFunction.__neg__/offset/restrict/normalize) - oracle boundary: both readings are accepted, but the
+    value and the Jacobian must follow the same one at every point.
+    """
+    target, edits, kind, when, warm = case["target"], case["edits"], case["kind"], case["when"], case["warm"]
+    cls = "MDOQuadraticFunction" if target in QUAD else "MDOLinearFunction" if target in ALL_LIN else "MDOFunction"
+    sig = {"op": f"set {cls}.{'>'.join(e[0] for e in edits)}", "operands": f"{leaf_class(target)};{kind};built={when};warm={warm}"}
+    what = f"{target}: " + ("" if not warm else "evaluate, jac; ") + (f"build {kind}; " if when == "before" else "") \
+        + "; ".join(f"set {e[0]} (variant {e[1]})" for e in edits) + (f"; build {kind}" if when == "after" else "")
+    f = env.get(target)
+    old = data_of(target)
+    sub = history_kinds(target)[kind]
+    pts = CFG["grid"]
+    built = None
+    try:
+        if warm >= 1:
+            f.evaluate(pts[0].copy())
+            f.jac(pts[0].copy())
+        if when == "before":
+            built = build_sub(sub, env, vd)
+            if built[0] is None or vd.bad:
+                return None, None, [], sig, what
+            if warm >= 2:
+                built[0].evaluate(built[2][0].copy())
+                built[0].jac(built[2][0].copy())
+    except Exception as e:
+        vd.bad.append(("raises:evaluate", f"before the edit: {type(e).__name__}: {str(e)[:160]}", None))
+        return None, None, [], sig, what
+    new = old
+    try:
+        for setter, k in edits:
+            new = apply_edit(f, new, target, setter, k)
+    except Exception as e:
+        vd.bad.append(("raises:build", f"setter: {type(e).__name__}: {str(e)[:160]}", None))
+        return None, None, [], sig, what
+    if target in env.data:
+        env.data[target] = new
+    if when == "after":
+        built = build_sub(sub, env, vd)
+        if built[0] is None or vd.bad:
+            return None, None, [], sig, what
+    fn, oracle, cpts = built
+    # 1. the edited function itself follows the new data
+    compare(f, with_data({target: new}, lambda x: leaf_dual(target, x)), pts, env, vd)
+    if vd.bad:
+        sig["operands"] = f"{leaf_class(target)};the function itself;warm={warm}"
+        return None, None, [], sig, what
+    # 2. the composite
+    o_new, o_old = with_data({target: new}, oracle), with_data({}, oracle)
+    if when == "after":
+        compare(fn, o_new, cpts, env, vd)
+    else:
+        compare_multi(fn, lambda x: [(o_new(x), "new data"), (o_old(x), "data at construction")], cpts, env, vd)
+    return None if vd.bad else _Done, oracle, cpts, sig, what
+
+
+def history_cases():
+    cases = []
+    for target in ("quad", "lin1", "lin2", "lin3", "lins", "s0", "v22"):
+        if target in QUAD:
+            setters = SETTERS["MDOQuadraticFunction"]
+        elif target in LINEAR:
+            setters = SETTERS["MDOLinearFunction"]
+        else:
+            setters = None
+        if setters is None:
+            sequences = [[["func+jac", 0]]]
+        else:
+            sequences = [[[a, 0]] for a in setters]
+            if "value_at_zero" in setters:
+                sequences.append([["value_at_zero", 2]])
+            sequences += [[[a, 0], [b, 1]] for a in setters for b in setters if a != b]
+            sequences += [[[a, 0], [a, 1]] for a in setters]
+        for edits in sequences:
+            for kind in history_kinds(target):
+                for when, warms in (("before", (0, 1, 2)), ("after", (0, 1))):
+                    for warm in warms:
+                        cases.append({"helper": "history", "target": target, "edits": edits, "kind": kind, "when": when, "warm": warm})
+    return cases
+
+
 GVALS = [[-0.4, 0.7, 0.2, -1.1], [0.9, -0.3, -0.8, 0.5], [-1.2, -0.2, -0.6, -0.1], [0.3, 0.31, 1.4, -2.0]]
 
 HELPERS = {
@@ -1211,6 +1492,7 @@ HELPERS = {
     "conlin": h_conlin,
     "aggregate": h_aggregate,
     "discipline": h_discipline,
+    "history": h_history,
 }
 
 
@@ -1246,14 +1528,26 @@ def subsets(n, proper=True):
     return out
 
 
+def ordered_selections(n):
+    """Every permutation of every subset of range(n) with fewer than n elements, shortest and increasing first."""
+    out = []
+    for r in range(n):
+        perms = [list(p) for p in itertools.permutations(range(n), r)]
+        out.extend(sorted(perms, key=lambda p: (p != sorted(p), p)))
+    return out
+
+
 def helper_cases(bases2, c):
     """``bases2``: leaves and depth-1 trees over the 2-input alphabet."""
     leaves3 = [["leaf", n] for n in LEAVES3]
     cases = []
-    # FunctionRestriction: every frozen subset that leaves at least one free input (incl. the empty one)
-    for b in bases2 + leaves3:
+    # FunctionRestriction: every ORDERED selection of frozen inputs (every permutation of every subset, incl. the empty
+    # one) that leaves at least one free input, on leaves / depth-1 trees with 2, 3 and 4 inputs
+    leaves4 = [["leaf", n] for n in LEAVES4]
+    trees4 = trees_depth1(LEAVES4, c)
+    for b in bases2 + leaves3 + leaves4 + trees4:
         n = LEAF_NIN[t_leaves(b)[0]]
-        for fr in subsets(n):
+        for fr in ordered_selections(n):
             cases.append({"helper": "restriction", "base": b, "frozen": fr})
     # LinearCompositeFunction: square (p = n) and rectangular matrices
     for b in bases2:
@@ -1277,12 +1571,15 @@ def helper_cases(bases2, c):
     for name in LINEAR:
         for sp, split in product_pairs(["bounded", "one-unbounded", "half-bounded", "degenerate lb=ub"], [False, True]):
             cases.append({"helper": "normalize", "base": ["leaf", name], "space": sp, "split": split})
-        for fr in subsets(2):
+        for fr in ordered_selections(2):
             cases.append({"helper": "linrestrict", "base": ["leaf", name], "frozen": fr})
     for name in LINEAR3:
         for split in (False, True):
             cases.append({"helper": "normalize", "base": ["leaf", name], "space": "bounded3", "split": split})
-        for fr in subsets(3):
+        for fr in ordered_selections(3):
+            cases.append({"helper": "linrestrict", "base": ["leaf", name], "frozen": fr})
+    for name in LINEAR4:
+        for fr in ordered_selections(4):
             cases.append({"helper": "linrestrict", "base": ["leaf", name], "frozen": fr})
     # Taylor polynomials at every point of the grid
     for b in bases2 + leaves3:
@@ -1333,7 +1630,7 @@ def product_pairs(a, b):
 # start-up self-test of the harness (never part of the verdict on gemseo)
 # ---------------------------------------------------------------------------------------------------
 def self_test():
-    for table, pts in ((USER_LEAVES, CFG["grid"]), (USER_LEAVES3, CFG["pts3"])):
+    for table, pts in ((USER_LEAVES, CFG["grid"]), (USER_LEAVES3, CFG["pts3"]), (USER_LEAVES4, CFG["pts4"])):
         for name, (comp, jacf, _, _) in table.items():
             for x in pts:
                 n = x.size
@@ -1386,12 +1683,20 @@ def run(ctx):
     t1 = trees_depth1(FUNC_LEAVES, c)
     n1 = phase(ctx, "depth1", [{"tree": t} for t in t1])
     nh = phase(ctx, "helpers", helper_cases(leaves + t1, c), chunk=50)
+    # histories on function objects: every public setter of the defining data found on the anchored classes
+    found = discover_setters()
+    handled = {(k, a) for k, v in SETTERS.items() for a in v}
+    ctx.tally.notes["public_setters_found"] = sorted(f"{k}.{a}" for k, a in found)
+    ctx.tally.notes["public_setters_not_in_the_alphabet"] = sorted(f"{k}.{a}" for k, a in found - handled - IGNORED_SETTERS)
+    nhist = phase(ctx, "histories", history_cases(), chunk=25)
     lower = leaves + t1
     # quick: 3 points per depth-2 tree; thorough: the 3x3 grid
     n2 = phase(ctx, "depth2", ({"tree": t, "grid": bool(ctx.thorough)} for t in trees_next(lower, t1, c)), chunk=400)
     bounds = {"depth": 2, "function_leaves": FUNC_LEAVES, "constants": ["number", "array of the output size"],
               "operators": [*BINOPS, "neg", "offset(number>0)", "offset(number<0)", "offset(array)"],
-              "trees_depth1": n1, "trees_depth2": n2, "helper_cases": nh,
+              "trees_depth1": n1, "trees_depth2": n2, "helper_cases": nh, "history_cases": nhist,
+              "histories": "construct -> [evaluate, jac] -> [build composite -> [evaluate, jac]] -> 1 or 2 public setters -> "
+              "[build composite] -> value and Jacobian of the function and of the composite on the grid",
               "points_per_case": {"depth<=1 and helpers": "3x3 grid (3 values per input dimension)",
                                   "depth2": "3x3 grid" if ctx.thorough else "3 points (every axis value once)"}}
     if ctx.thorough:
@@ -1419,6 +1724,10 @@ def run(ctx):
             "two function operands have the same output dimension (the operator makers give the composite the dimension of "
             "the first operand); arrays have the output size of the first operand",
             "the quadratic Taylor model is built on scalar functions returning a 1-D gradient, with symmetric Hessian approximations",
+            "restrictions: every ordered selection of frozen inputs with pairwise distinct frozen values, on 2-, 3- and 4-input functions",
+            "histories: a composite built before a setter call may follow the new data or keep the data it copied at construction "
+            "(value and Jacobian under the same reading); func and jac of a user function are replaced together; setters that do "
+            "not define the value (input_names, output_names, expects_normalized_inputs) are not exercised",
             "convex linearization: expansion and evaluation points without zero component (reciprocal variables)",
             "points where a denominator vanishes, where two maximal constraints tie, or where the derived tolerance exceeds 1e-7 "
             "relative are skipped and counted (points_skipped_singular_or_ill_conditioned)",
